@@ -66,9 +66,9 @@ func runC12(p *Prog, r *Report) {
 	loops := RangeLoops(fn)
 	// the enabled loop: the one that stores to the offset field
 	var main, disabled *RangeLoop
-	for _, l := range loops {
-		hasOffset, hasShift := false, false
-		Instrs(fn, func(in ssa.Instruction) {
+	disabledFn := fn
+	classify := func(host *ssa.Function, l *RangeLoop) (hasOffset, hasShift bool) {
+		Instrs(host, func(in ssa.Instruction) {
 			if !l.Contains(in.Block()) {
 				return
 			}
@@ -79,10 +79,60 @@ func runC12(p *Prog, r *Report) {
 				hasShift = true
 			}
 		})
+		return
+	}
+	for _, l := range loops {
+		hasOffset, hasShift := classify(fn, l)
 		if hasOffset {
 			main = l
 		} else if hasShift {
 			disabled = l
+		}
+	}
+	// the region that handles one sample: the body of the main loop, or a helper method called
+	// once per sample from a loop of UnwrapInPlace whose result is stored as the output sample
+	R := &c12Region{body: fn, loopFn: fn}
+	if main == nil {
+		for _, l := range loops {
+			Instrs(fn, func(in ssa.Instruction) {
+				call, ok := in.(*ssa.Call)
+				if !ok || !l.Contains(call.Block()) || !l.EveryIteration(call.Block()) {
+					return
+				}
+				h := call.Call.StaticCallee()
+				if !isModuleFn(h) || len(StoresTo(h, puT, "offset")) == 0 || len(RangeLoops(h)) > 0 {
+					return
+				}
+				// data[i] = h(...)
+				var outSt *ssa.Store
+				for _, ref := range *call.Referrers() {
+					if st, ok := ref.(*ssa.Store); ok && st.Val == ssa.Value(call) {
+						if ia, ok := st.Addr.(*ssa.IndexAddr); ok && ia.Index == l.Idx {
+							outSt = st
+						}
+					}
+				}
+				if outSt == nil || !l.EveryIteration(outSt.Block()) {
+					return
+				}
+				main = l
+				R.body = h
+				R.call = call
+				R.outStore = outSt
+			})
+		}
+	}
+	if disabled == nil {
+		for _, h := range recvHelpers(fn, 1) {
+			if h == fn || h == R.body {
+				continue
+			}
+			for _, l := range RangeLoops(h) {
+				if hasOffset, hasShift := classify(h, l); hasShift && !hasOffset {
+					disabled = l
+					disabledFn = h
+				}
+			}
 		}
 	}
 	if main == nil {
@@ -128,6 +178,13 @@ func runC12(p *Prog, r *Report) {
 		return
 	}
 	_ = NewPolyCtx
+	R.loop = main
+	if R.body != fn {
+		r.Fn(FuncName(R.body))
+	}
+	if disabledFn != fn {
+		r.Fn(FuncName(disabledFn))
+	}
 
 	// ---- R1
 	var extraPhis []string
@@ -150,6 +207,22 @@ func runC12(p *Prog, r *Report) {
 				if x == main.Idx || (x.Op == token.LSS && x.X == main.Idx && x.Block() == main.Header) {
 					continue
 				}
+				// the increment of a counting loop: i+1 used only to feed the loop's own counter
+				if k, isC := constInt(x.Y); isC && k == 1 && x.Op == token.ADD && x.X == v {
+					onlyPhi := true
+					for _, r2 := range *x.Referrers() {
+						if ph, isPhi := r2.(*ssa.Phi); isPhi && ph == main.Phi {
+							continue
+						}
+						if _, isDbg := r2.(*ssa.DebugRef); isDbg {
+							continue
+						}
+						onlyPhi = false
+					}
+					if onlyPhi {
+						continue
+					}
+				}
 			case *ssa.Phi:
 				if x == main.Phi {
 					continue
@@ -165,40 +238,65 @@ func runC12(p *Prog, r *Report) {
 	r.Check(badUse == "", "C12.R1", "the sample's position in the call is used only to address it", p.Pos(fn.Pos()), "index used only in data[i]", "the loop index takes part in a computation or condition at "+badUse+": the result depends on where a call boundary falls")
 	// every piece of carried state is a field that is stored inside the loop: lastVal every iteration
 	var lastStore *ssa.Store
-	Instrs(fn, func(in ssa.Instruction) {
-		if st, ok := in.(*ssa.Store); ok && main.Contains(st.Block()) && puField(st.Addr) == "lastVal" {
+	Instrs(R.body, func(in ssa.Instruction) {
+		if st, ok := in.(*ssa.Store); ok && R.contains(st.Block()) && puField(st.Addr) == "lastVal" {
 			lastStore = st
 		}
 	})
-	r.Check(lastStore != nil && main.EveryIteration(lastStore.Block()), "C12.R1", "the last-value field is refreshed on every sample", p.Pos(fn.Pos()), "unconditional store in the loop body", "the previous-sample state is not updated on every sample")
+	r.Check(lastStore != nil && R.every(lastStore.Block()), "C12.R1", "the last-value field is refreshed on every sample", p.Pos(fn.Pos()), "unconditional store in the loop body", "the previous-sample state is not updated on every sample")
 
 	// ---- R2: output = v + offset; v = uint16(raw & signMask) >> drop
 	var outStore *ssa.Store
-	Instrs(fn, func(in ssa.Instruction) {
-		if st, ok := in.(*ssa.Store); ok && main.Contains(st.Block()) {
-			if ia, ok := st.Addr.(*ssa.IndexAddr); ok && ia.Index == main.Idx {
-				outStore = st
+	var outVal ssa.Value
+	if R.body == fn {
+		Instrs(fn, func(in ssa.Instruction) {
+			if st, ok := in.(*ssa.Store); ok && main.Contains(st.Block()) {
+				if ia, ok := st.Addr.(*ssa.IndexAddr); ok && ia.Index == main.Idx {
+					outStore = st
+					outVal = st.Val
+				}
 			}
-		}
-	})
+		})
+	} else {
+		outStore = R.outStore
+		outVal = singleReturn(R.body)
+	}
 	var vVal ssa.Value
 	if lastStore != nil {
 		vVal = lastStore.Val
 	}
 	okOut := false
 	outDesc := "?"
-	if outStore != nil && vVal != nil {
+	if outStore != nil && vVal != nil && outVal != nil {
 		// the stored value: convert(v + load offset)
-		if bo, ok := stripConv(outStore.Val).(*ssa.BinOp); ok && bo.Op == token.ADD {
+		if bo, ok := stripConv(outVal).(*ssa.BinOp); ok && bo.Op == token.ADD {
 			x, y := stripConv(bo.X), stripConv(bo.Y)
 			if (x == vVal && puField(y) == "offset") || (y == vVal && puField(x) == "offset") {
 				okOut = true
 			}
-			outDesc = c05Describe(outStore.Val, nil, 0)
+			outDesc = c05Describe(outVal, nil, 0)
 		}
 	}
-	r.Check(okOut && main.EveryIteration(outStore.Block()), "C12.R2", "each output sample is the reduced input plus the offset field", p.Pos(fn.Pos()), outDesc, "the stored sample is `"+outDesc+"`, not (masked, shifted input) + offset: the output is no longer the input modulo a quantum")
+	r.Check(okOut && outStore != nil && main.EveryIteration(outStore.Block()), "C12.R2", "each output sample is the reduced input plus the offset field", p.Pos(fn.Pos()), outDesc, "the stored sample is `"+outDesc+"`, not (masked, shifted input) + offset: the output is no longer the input modulo a quantum")
 	// v = (raw & signMask) >> drop in both arms
+	atCaller := func(v ssa.Value) ssa.Value {
+		prm, ok := v.(*ssa.Parameter)
+		if !ok || prm.Parent() == fn {
+			return v
+		}
+		var site ssa.Instruction
+		n := 0
+		Instrs(fn, func(in ssa.Instruction) {
+			if cc := CallOf(in); cc != nil && cc.StaticCallee() == prm.Parent() {
+				site = in
+				n++
+			}
+		})
+		if n != 1 {
+			return v
+		}
+		return ArgForParam([]ssa.Instruction{site}, prm)
+	}
 	shape := func(v ssa.Value) string {
 		v = stripConv(v)
 		bo, ok := v.(*ssa.BinOp)
@@ -219,6 +317,8 @@ func runC12(p *Prog, r *Report) {
 		in := "raw"
 		ov := stripConv(other)
 		isElem := false
+		// a helper's parameter: what it stands for at the helper's call in UnwrapInPlace
+		ov = stripConv(atCaller(ov))
 		if ld, ok := ov.(*ssa.UnOp); ok && ld.Op == token.MUL {
 			if _, isIA := ld.X.(*ssa.IndexAddr); isIA {
 				isElem = true
@@ -227,7 +327,7 @@ func runC12(p *Prog, r *Report) {
 		if !isElem {
 			in = "[" + c05Describe(other, nil, 0) + "]"
 		}
-		sh := c05Describe(bo.Y, nil, 0)
+		sh := c05Describe(atCaller(stripConv(bo.Y)), nil, 0)
 		return "(" + in + " & " + m + ") >> " + sh
 	}
 	mainShape := "?"
@@ -237,7 +337,7 @@ func runC12(p *Prog, r *Report) {
 	r.Check(strings.Contains(mainShape, " & signMask) >> ") && strings.Contains(mainShape, "lowBitsToDrop"), "C12.R2", "the input is masked with the sign mask and shifted by the dropped bits", p.Pos(fn.Pos()), mainShape, "the enabled path reduces the input as `"+mainShape+"`")
 	if disabled != nil {
 		var dStore *ssa.Store
-		Instrs(fn, func(in ssa.Instruction) {
+		Instrs(disabledFn, func(in ssa.Instruction) {
 			if st, ok := in.(*ssa.Store); ok && disabled.Contains(st.Block()) {
 				if ia, ok := st.Addr.(*ssa.IndexAddr); ok && ia.Index == disabled.Idx {
 					dStore = st
@@ -258,7 +358,7 @@ func runC12(p *Prog, r *Report) {
 		kind string
 	}
 	var offs []offStore
-	Instrs(fn, func(in ssa.Instruction) {
+	c12Hosts(fn, R.body, disabledFn)(func(in ssa.Instruction) {
 		st, ok := in.(*ssa.Store)
 		if !ok || puField(st.Addr) != "offset" {
 			return
@@ -299,9 +399,9 @@ func runC12(p *Prog, r *Report) {
 	// ---- R3: step and limit pairing
 	var step ssa.Value
 	okStep := false
-	Instrs(fn, func(in ssa.Instruction) {
+	Instrs(R.body, func(in ssa.Instruction) {
 		bo, ok := in.(*ssa.BinOp)
-		if !ok || bo.Op != token.SUB || !main.Contains(bo.Block()) {
+		if !ok || bo.Op != token.SUB || !R.contains(bo.Block()) {
 			return
 		}
 		if bo.X == vVal && puField(stripConv(bo.Y)) == "lastVal" {
@@ -392,9 +492,9 @@ func runC12(p *Prog, r *Report) {
 
 	// ---- R4: reset rule
 	var zeroHome, incr, zeroWrap *ssa.Store
-	Instrs(fn, func(in ssa.Instruction) {
+	Instrs(R.body, func(in ssa.Instruction) {
 		st, ok := in.(*ssa.Store)
-		if !ok || puField(st.Addr) != "resetCount" || !main.Contains(st.Block()) {
+		if !ok || puField(st.Addr) != "resetCount" || !R.contains(st.Block()) {
 			return
 		}
 		if k, isC := constInt(st.Val); isC && k == 0 {
@@ -445,14 +545,14 @@ func runC12(p *Prog, r *Report) {
 	// the disabled path zeroes the counter and touches no other state
 	if disabled != nil {
 		touched := map[string]bool{}
-		Instrs(fn, func(in ssa.Instruction) {
+		c12Hosts(fn, disabledFn)(func(in ssa.Instruction) {
 			st, ok := in.(*ssa.Store)
 			if !ok {
 				return
 			}
 			if f := puField(st.Addr); f != "" {
 				// stores that are not in the main loop and are reachable on the disabled path
-				if !main.Contains(st.Block()) {
+				if in.Parent() != R.body || !R.contains(st.Block()) {
 					touched[f] = true
 				}
 			}
@@ -463,6 +563,46 @@ func runC12(p *Prog, r *Report) {
 		}
 		sort.Strings(ts)
 		r.Check(len(ts) == 1 && ts[0] == "resetCount", "C12.R4", "the disabled path only zeroes the away-counter", p.Pos(fn.Pos()), strings.Join(ts, ","), "outside the unwrapping loop the function stores to {"+strings.Join(ts, ",")+"}")
+	}
+}
+
+// c12Region: the code that handles one sample.
+type c12Region struct {
+	body     *ssa.Function // UnwrapInPlace (the body of loop) or a per-sample helper (all of it)
+	loopFn   *ssa.Function
+	loop     *RangeLoop
+	call     *ssa.Call  // the per-sample call of the helper
+	outStore *ssa.Store // data[i] = helper(...)
+}
+
+func (R *c12Region) contains(b *ssa.BasicBlock) bool {
+	if R.body == R.loopFn {
+		return R.loop.Contains(b)
+	}
+	return b.Parent() == R.body
+}
+
+func (R *c12Region) every(b *ssa.BasicBlock) bool {
+	if R.body == R.loopFn {
+		return R.loop.EveryIteration(b)
+	}
+	if b.Parent() != R.body || len(b.Instrs) == 0 {
+		return false
+	}
+	return alwaysExecutes(b.Instrs[0])
+}
+
+// c12Hosts visits the instructions of the given functions, each function once.
+func c12Hosts(fns ...*ssa.Function) func(func(ssa.Instruction)) {
+	return func(visit func(ssa.Instruction)) {
+		seen := map[*ssa.Function]bool{}
+		for _, f := range fns {
+			if f == nil || seen[f] {
+				continue
+			}
+			seen[f] = true
+			Instrs(f, visit)
+		}
 	}
 }
 
